@@ -73,9 +73,10 @@ func newBufEnv(c *ctx, netn int) *bufEnv {
 	bind := func(k, port int) *net.UDPConn {
 		a := &net.UDPAddr{IP: net.ParseIP(e.ip(k)), Port: port}
 		conn, err := net.ListenUDP("udp4", a)
-		for try := 0; err != nil && try < 100; try++ {
-			// another process of this machine may hold the port for a moment (a wildcard bind of a test binary)
-			time.Sleep(300 * time.Millisecond)
+		for try := 0; err != nil && try < 180; try++ {
+			// another process of this machine may hold the port for a while (a wildcard bind of go-upf's own forwarder
+			// tests, which hang for up to two minutes without the kernel module)
+			time.Sleep(time.Second)
 			conn, err = net.ListenUDP("udp4", a)
 		}
 		if err != nil {
